@@ -176,14 +176,32 @@ func findWalker(c *Check, rule string) *walkerInfo {
 // R03a: the release rule is a ∀ over the dependant's in-edges requiring success.
 
 func ruleRelease(c *Check, rule string, w *walkerInfo) {
-	fn := w.OnComplete
+	ruleReleaseIn(c, rule, w, w.OnComplete, 0)
+}
+
+func ruleReleaseIn(c *Check, rule string, w *walkerInfo, fn *ssa.Function, depth int) {
 	sites := sitesReaching(c, fn, fnSet(w.StartNode))
-	fname := c.P.FuncName(fn)
+	fname := c.P.FuncName(w.OnComplete)
 	if len(sites) == 0 {
 		c.Bad(rule, "release/"+fname, "the completion handler never releases a dependant", c.P.Pos(fn.Pos()))
 		return
 	}
 	for _, site := range sites {
+		// the release loop may have been moved into a helper of the completion handler: judge it there
+		if call, ok := site.(*ssa.Call); ok && depth < 2 {
+			if h := call.Call.StaticCallee(); h != nil && h != w.StartNode && len(h.Blocks) > 0 && engine.InPackage(h, "dag") {
+				direct := false
+				for _, f := range c.G.CalleesOf(site) {
+					if f == w.StartNode {
+						direct = true
+					}
+				}
+				if !direct {
+					ruleReleaseIn(c, rule, w, h, depth+1)
+					continue
+				}
+			}
+		}
 		key := "release-forall-deps/" + fname
 		pos := c.P.InstrPos(site)
 		args := site.Common().Args
